@@ -1,13 +1,13 @@
-\* E02 mc (thorough): every pair with |h1| <= 1, |h2| <= 2 (chain) over the menu DOps; laws of Diff / SoftEq
+\* E02 mc (thorough): every pair with |h1| <= 1, |h2| <= 2 (chain and fork) over the menu DOps; laws of Diff / SoftEq
 CONSTANTS
     Depth = 0
-    Seeds = {"full"}
+    Seeds = {"full", "sur"}
     OpSet = "all"
     EmitOn = FALSE
     Variant = "doc"
     L1 = 1
     L2 = 2
-    Modes = {"chain"}
+    Modes = {"chain", "fork"}
     Exact = FALSE
     Heavy = {}
 INIT DInit
